@@ -70,7 +70,7 @@ def info(tier):
         "`fun`: consistent, belonging to another iterate, huge, NaN) through the minimize seam; "
         "%d directed handle-retrieval recipes on solved models with pairwise distinct optimal values, for 3 solver "
         "methods; distinct = canonical (problem, method) hashes" % len(HANDLES),
-        "required_cells": ["keys", "objective:optimal", "sense:min", "sense:max", "kind:constant-objective", "kind:objective-subset", "kind:symmetric-matrix-objective",
+        "required_cells": ["keys", "objective:optimal", "sense:min", "sense:max", "kind:constant-objective", "kind:objective-subset", "kind:symmetric-matrix-objective", "kind:underscore-names",
                            "kind:lp", "kind:nlp", "history:flip-sense-same-object", "history:parameter-set-then-resolve", "history:parameter-set-then-resolve:deep-objective", "stub:fun-consistent", "stub:fun-stale-iterate", "stub:fun-huge", "stub:fun-nan"] + [f"handle:{h}" for h, _, _ in HANDLES] + ["handle:by-name", "handle:get-default"],
         "assumptions": ["objective compared at rtol 1e-7 (values are float64 round-trips of the solver's point)"],
     }
@@ -219,6 +219,20 @@ def special_problems(rng):
         out.append(("symmetric-matrix-objective", {"decls": d2, "objective": ["bin", "+", dev, ["bin", "*", ["raw", 0.5, "float"], red]], "sense": "min", "constraints": []}))
     out.append(("symmetric-matrix-objective", {"decls": d2, "objective": ["bin", "-", ["msum", Sm], dev], "sense": "max",
                                                "constraints": [["rel", "<=", ["trace", Sm], ["raw", 4.0, "float"], "direct"]]}))
+    # names that start with an underscore, and the fixed-zero helper variables of diag_matrix(): all of them are problem variables
+    d3 = [{"k": "var", "name": "_t", "lb": -1.0, "ub": 3.0}, {"k": "var", "name": "__slack", "lb": 0.0}, {"k": "vec", "name": "_w", "n": 2, "lb": 0.0, "ub": 2.0},
+          {"k": "vec", "name": "y", "n": 2, "lb": 0.0, "ub": 4.0}]
+    t_, s_, w_ = ["var", "_t"], ["var", "__slack"], ["vec", "_w"]
+    sqd = lambda e, c: ["bin", "**", ["bin", "-", e, ["raw", c, "float"]], ["raw", 2, "int"]]  # noqa: E731
+    out.append(("underscore-names", {"decls": d3, "objective": ["bin", "+", ["bin", "+", sqd(t_, 1.25), ["dot", w_, w_]], ["bin", "*", ["raw", 2.0, "float"], s_]], "sense": "min",
+                                     "constraints": [["rel", ">=", ["bin", "+", ["sum", w_], s_], ["raw", 1.0, "float"], "direct"]]}))
+    out.append(("underscore-names", {"decls": d3, "objective": ["bin", "+", ["bin", "*", ["raw", 3.0, "float"], t_], ["sum", w_]], "sense": "max",
+                                     "constraints": [["rel", "<=", ["bin", "+", t_, ["sum", w_]], ["raw", 2.5, "float"], "direct"]]}))
+    Dm = ["dmat", ["vec", "y"]]
+    out.append(("underscore-names", {"decls": d3, "objective": ["bin", "+", ["fro", Dm], sqd(["mel", Dm, 1, 1], 2.0)], "sense": "min",
+                                     "constraints": [["rel", ">=", ["trace", Dm], ["raw", 1.0, "float"], "direct"]]}))
+    out.append(("underscore-names", {"decls": d3, "objective": ["msum", ["mbin", "*", Dm, ["arr2", [[1.0, 2.0], [3.0, 4.0]]]]], "sense": "max",
+                                     "constraints": [["rel", "<=", ["msum", Dm], ["raw", 3.0, "float"], "direct"]]}))
     return out
 
 
